@@ -91,7 +91,7 @@ impl Prop for SameSeedSync {
             let out = std::process::Command::new(exe)
                 .args(["C19", "--transcript", &arg])
                 .output()
-                .map_err(|e| format!("cannot spawn second process: {}", e))?;
+                .unwrap_or_else(|e| crate::runner::harness_fail(&format!("cannot spawn second process: {}", e)));
             if !out.status.success() {
                 return Err(format!("second process failed for '{}': {}", pos.fen(), String::from_utf8_lossy(&out.stderr)));
             }
@@ -219,7 +219,7 @@ impl Prop for SameSeedPublic {
             let out = std::process::Command::new(exe)
                 .args(["C19", "--transcript", &arg])
                 .output()
-                .map_err(|e| format!("cannot spawn second process: {}", e))?;
+                .unwrap_or_else(|e| crate::runner::harness_fail(&format!("cannot spawn second process: {}", e)));
             if !out.status.success() {
                 return Err(format!("second process failed for '{}': {}", pos.fen(), String::from_utf8_lossy(&out.stderr)));
             }
